@@ -328,6 +328,15 @@ func faithful(t *Ty, v hx.Sexp) bool {
 	}
 	t = nullable(t)
 	switch t.K {
+	case "custom":
+		// Even takes integers only (JSON 2.0 is 2), Tag takes strings (a bare name written in JSON is a string)
+		switch tag(v) {
+		case "half":
+			return t.Name != "Even" || new(big.Int).Rem(bigOf(v.List[1]), big.NewInt(2)).Sign() != 0
+		case "enum":
+			return t.Name != "Tag"
+		}
+		return true
 	case "scalar":
 		switch tag(v) {
 		case "half":
